@@ -371,6 +371,10 @@ func (g *bindGen) argFor(name string, allowBulk bool) any {
 			return nil
 		}
 	default:
+		// the zero value: every omitempty member is zero
+		if t.Kind() == reflect.Struct {
+			return reflect.Zero(t).Interface()
+		}
 		return mk().Elem().Interface()
 	}
 }
